@@ -29,6 +29,9 @@ pub enum LifeOp {
     InitBundle { user: u8 },
     OpenBundled { bundle: u8, index: u16, lower: TickSel, upper: TickSel },
     DeleteBundle { bundle: u8 },
+    /// open every index of the bundle that is not open yet (full-range positions), except `skip`, then try to delete the bundle: expands
+    /// into the single ops above, so the same model decides every step (a bundle with all 256 positions open is not deletable)
+    FillBundle { bundle: u8, skip: Option<u16> },
     Increase { pos: u16, #[serde(with = "crate::ser::u128s")] liquidity: u128 },
     Decrease {
         pos: u16,
@@ -241,7 +244,21 @@ pub fn check_case(c: &LifeCase, l: &mut Local) -> Result<(), String> {
     let mut predicted_rejections = 0u32;
     let mut lock_or_bundle_ops = 0u32;
     let mut sentinel_opens = 0u32;
-    for (n, op) in c.ops.iter().enumerate() {
+    let mut expanded: Vec<LifeOp> = vec![];
+    for op in &c.ops {
+        match op {
+            LifeOp::FillBundle { bundle, skip } => {
+                for index in 0..256u16 {
+                    if Some(index) != *skip {
+                        expanded.push(LifeOp::OpenBundled { bundle: *bundle, index, lower: TickSel::FullLower, upper: TickSel::FullUpper });
+                    }
+                }
+                expanded.push(LifeOp::DeleteBundle { bundle: *bundle });
+            }
+            o => expanded.push(o.clone()),
+        }
+    }
+    for (n, op) in expanded.iter().enumerate() {
         let ctx = |m: String| format!("op #{n} {op:?}: {m}");
         match op {
             LifeOp::Open { user, kind, lower, upper } => {
@@ -337,6 +354,7 @@ pub fn check_case(c: &LifeCase, l: &mut Local) -> Result<(), String> {
                     }
                 }
             }
+            LifeOp::FillBundle { .. } => unreachable!("expanded above"),
             LifeOp::DeleteBundle { bundle } => {
                 if s.w.bundles.is_empty() {
                     continue;
@@ -354,6 +372,9 @@ pub fn check_case(c: &LifeCase, l: &mut Local) -> Result<(), String> {
                     l.count("bundle_deleted");
                 } else {
                     predicted_rejections += 1;
+                    if s.bundle_open[b].len() == 256 {
+                        l.count("delete_of_a_bundle_with_all_256_positions_open_refused");
+                    }
                 }
             }
             LifeOp::Increase { pos, liquidity } => {
@@ -693,6 +714,7 @@ fn op_strategy() -> BoxedStrategy<LifeOp> {
         2 => (0u8..2).prop_map(|user| LifeOp::InitBundle { user }),
         6 => (0u8..3, prop_oneof![8 => 0u16..256, 1 => Just(255u16), 1 => 256u16..300], tick_sel(true), tick_sel(false)).prop_map(|(bundle, index, lower, upper)| LifeOp::OpenBundled { bundle, index, lower, upper }),
         2 => (0u8..3).prop_map(|bundle| LifeOp::DeleteBundle { bundle }),
+        1 => (0u8..3, prop_oneof![3 => Just(None), 1 => (0u16..256).prop_map(Some)]).prop_map(|(bundle, skip)| LifeOp::FillBundle { bundle, skip }),
         10 => (any::<u16>(), prop_oneof![4 => (16u32..50).prop_map(|b| 1u128 << b), 1 => 1u128..1000]).prop_map(|(pos, liquidity)| LifeOp::Increase { pos, liquidity }),
         6 => (any::<u16>(), any::<bool>(), prop_oneof![3 => Just(false), 1 => Just(true)]).prop_map(|(pos, all, by_delegate)| LifeOp::Decrease { pos, all, by_delegate }),
         3 => (any::<u16>(), 0u8..4).prop_map(|(pos, to)| LifeOp::Approve { pos, to }),
